@@ -82,6 +82,30 @@ let predict_near (us : string list) : string list =
     t := ret;
     bit o.w_ok ^ bit (zle next ret)) us
 
+(* prof: the configured profile, from the segment list (all times in ns) *)
+let segments_of (s : string) : segment list =
+  List.map (fun sg ->
+    match String.split_on_char '.' sg with
+    | [ "once"; n ] -> SOnce (nat_of_int (int_of_string n))
+    | [ "const"; ops; d ] ->
+        let ops = int_of_string ops and d = int_of_string d in
+        SConst (z_of_zt (ZT.of_int (1000000000 / ops)), nat_of_int (ops * d / 1000), z_of_ms (string_of_int d))
+    | [ "pause"; d ] -> SPause (z_of_ms d)
+    | [ "unl"; d ] -> SUnl (z_of_ms d)
+    | _ -> failwith ("bad segment " ^ sg)) (String.split_on_char ';' s)
+
+let us_string (x : z) : string = ZT.to_string (ZT.div (zt_of_z x) (ZT.of_int 1000))
+
+let predict_prof (discard : bool) (offs : z list) (has_tail : bool) (durs : z list) : string list =
+  (* the i-th Shoot sleeps dur_i, 25 ms when not given *)
+  let d25 = z_of_ms "25" in
+  let rec pad l n = if n <= 0 then [] else (match l with x :: r -> x :: pad r (n - 1) | [] -> d25 :: pad [] (n - 1)) in
+  let shots = run_inst wcurrent discard wstate_init (z_of_int 0) (List.map (fun t -> (z_of_int 0, t)) offs) (pad durs (List.length offs)) in
+  List.map (fun s ->
+    (match s.s_dec with Fire -> "F" | Discard -> "D")
+    ^ bit (zle s.s_tok s.s_entry) ^ bit (zle max_overdue (zsub s.s_entry s.s_tok))) shots
+  @ [ (if has_tail then "c=ge" else "c=eq") ]
+
 let predict (c : string) (obs : string) : string * string * bool =
   let ofs = if obs = "" then [] else split_blank obs in
   if obs = "disturbed" then
@@ -118,6 +142,35 @@ let predict (c : string) (obs : string) : string * string * bool =
       if List.length ofs <> List.length steps && !bad = "" then bad := "BAD:w:missing-observations";
       let late = List.exists (fun f -> String.length f = 5 && (f.[3] = '1' || f.[1] = '1')) ofs in
       (String.concat " " pred, (if !bad = "" then "ok" else !bad), late || List.length steps > 1)
+  | [ "proftail"; _; segs; _; _; _ ] ->
+      let (_, tails) = profile_offsets (z_of_int 0) (segments_of segs) in
+      (* the unlimited tail is not part of the Waiter model: the prediction is the specification's *)
+      ("t=1", (if obs = "t=1" then "ok" else "BAD:prof:shot-before-the-configured-start-of-the-unlimited-tail"), tails <> [])
+  | [ "prof"; d; segs; offs_case; tail_case; durs ] ->
+      let discard = (d = "1") in
+      let (offs, tails) = profile_offsets (z_of_int 0) (segments_of segs) in
+      let offs_model = if offs = [] then "-" else String.concat "," (List.map us_string offs) in
+      let tail_model = (match tails with
+        | [] -> "-" | (st, du) :: _ -> us_string st ^ ":" ^ us_string du) in
+      let pred = predict_prof discard offs (tails <> []) (csv_ms durs) in
+      let n = List.length offs in
+      let toks_obs = List.filteri (fun i _ -> i < n) (List.filter (fun f -> String.length f = 3 && (f.[0] = 'F' || f.[0] = 'D')) ofs) in
+      let cfield = (match List.find_opt (fun f -> String.length f > 2 && String.sub f 0 2 = "c=") ofs with Some f -> f | None -> "c=?") in
+      let v =
+        if offs_model <> offs_case || tail_model <> tail_case then
+          "BAD:prof:case-offsets-differ-from-the-configured-profile model=" ^ offs_model ^ " tail=" ^ tail_model
+        else if List.mem "run-error" ofs then "BAD:prof:run-error"
+        else if List.exists (fun f -> f.[1] <> '1') toks_obs then "BAD:prof:shot-before-the-time-the-configured-profile-schedules-it"
+        else if cfield = "c=lt" || List.length toks_obs < n then
+          (if discard then "BAD:prof:fired+discarded-less-than-the-tokens-of-the-profile" else "BAD:prof:not-every-token-of-the-profile-fired")
+        else if cfield = "c=gt" then "BAD:prof:more-shots-than-tokens-in-the-profile"
+        else begin
+          match List.find_opt (fun f -> not (spec_decision_b discard (f.[2] = '1') (f.[0] = 'D'))) toks_obs with
+          | None -> "ok"
+          | Some f -> if not discard then "BAD:prof:discarded-with-discard_overflow-off"
+                      else if f.[0] = 'D' then "BAD:prof:discarded-although-less-than-2s-late" else "BAD:prof:fired-although-2s-late"
+        end in
+      (String.concat " " pred, v, tails <> [] || List.exists (fun f -> f.[2] = '1') toks_obs)
   | [ "eng"; d; toks; durs ] ->
       let discard = (d = "1") in
       let tl = csv_ms toks in
